@@ -20,7 +20,7 @@ CLAIMED = {
     'C12': dict(engine='B', technique=TECH_B, ref='DESIGN.md section 4, C12', note=NOTE_B,
                 text='Every leap table of <= 3 records accepted by the real constructor x every i64 instant/count: both conversions against a declarative "correction in force" specification, monotonicity, round trip, Galois connection with transition counts, public lookup switch instant.'),
     'C03': dict(engine='B', technique=TECH_B, ref='DESIGN.md section 4, C03', note=NOTE_B,
-                text='Every table of <= 4 (thorough 6) transitions accepted by the real constructor, 3 distinguishable types, rule none/Fixed, with and without <= 2 leap records, every i64 instant: the binary-search lookup returns the reference scan\'s type by pointer identity; DateTime::from_timespec = lookup + fields of t+offset (S_pack).'),
+                text='Every table of <= 6 (thorough 8, optionally 12) transitions accepted by the real constructor, 3 distinguishable types, rule none/Fixed, with and without <= 3 leap records, every i64 instant: the binary-search lookup returns the reference scan\'s type by pointer identity; DateTime::from_timespec = lookup + fields of t+offset (S_pack).'),
     'C05': dict(engine='B', technique=TECH_B + '; civil time abstracted to its second count (contracts C01/C02)', ref='DESIGN.md section 4, C05/C06', note=NOTE_B,
                 text='Search vs forward lookup on every table zone up to the bound (<= 2 transitions quick, 3 thorough; + Fixed rule; leap variant), every civil second count and every instant: soundness, completeness, no duplicate valid instants, unique().'),
     'C06': dict(engine='B', technique=TECH_B + '; civil time abstracted to its second count (contracts C01/C02)', ref='DESIGN.md section 4, C05/C06', note=NOTE_B,
@@ -30,7 +30,7 @@ CLAIMED = {
     'C08': dict(engine='B', technique=TECH_B + '; unit contracts + composition with abstracted callees', ref='DESIGN.md section 4, C08', note=NOTE_B + ' Paper step: units = reference and composition = reference composition => whole decoder = reference.',
                 text='Real parse_header (all buffers <= 46 B), read_data_blocks::<4>/<8> (all u32 counts), DataBlocks::parse on minimal shapes with symbolic bytes, parse_footer framing, and parse_tz_file on arbitrary <= 112-byte files with record decoding abstracted, each against an RFC 8536 reference typed in the harness.'),
     'C09': dict(engine='B', technique=TECH_B + '; unit contracts + composition with abstracted callees', ref='DESIGN.md section 4, C09', note=NOTE_B + ' S_utf8 stub discharged on <= 3 arbitrary bytes.',
-                text='Each TZ-string sub-parser on arbitrary ASCII bytes (<= 5..7, thorough <= 10) against a reference recogniser (accept/reject, value, bytes consumed); parse_posix_tz on <= 6 arbitrary bytes with abstracted callees against a replay of the grammar on the call log (negation, default DST offset, default 02:00, separators, trailing data).'),
+                text='Each TZ-string sub-parser on arbitrary ASCII bytes up to its longest sentence (5..10 bytes) against a reference recogniser (accept/reject, value, bytes consumed); parse_posix_tz on <= 6 arbitrary bytes with abstracted callees against a replay of the grammar on the call log (negation, default DST offset, default 02:00, separators, trailing data).'),
     'C13': dict(engine='AB', technique=TECH_B + '; ' + TECH_A + ' for the designation / local-time-type constructors', ref='DESIGN.md section 4, C13', note=NOTE_B + ' ' + NOTE_A,
                 text='TimeZoneRef::new / TimeZone::new on arbitrary lists (<= 3 each): Ok <=> spec predicate, every error kind names a violated clause, owned = borrowed; TzAsciiStr::new/as_bytes and LocalTimeType::new for every slice of length 0..9.'),
     'C14': dict(engine='AB', technique=TECH_A + ' for the constructors; ' + TECH_B + ' for plumbing and comparisons', ref='DESIGN.md section 4, C14', note=NOTE_A + ' ' + NOTE_B,
